@@ -228,6 +228,39 @@ def gen_history(rng, nops, vpool_size, alias=0, long=False):
     return ops
 
 
+LATEST_REL = [b"1.0.0", b"1.1.0", b"2.0.0", b"3.0.0", b"0.9.0"]
+LATEST_PRE = [b"2.0.0-a", b"2.0.0-b", b"2.0.0-rc.1", b"3.0.0-0", b"3.0.0-beta", b"1.0.0-alpha", b"2.0.0-beta"]
+LATEST_REQS = [b">=2.0.0-0 <2.0.0", b"^2.0.0-0", b"2.0.0-a - 2.0.0-z", b">=3.0.0-0 <3.0.0", b"*", b">=1.0.0-0", b"latest", b">=2.0.0-a",
+               b"<2.0.0-z", b"^1.0.0", b">=2.0.0-0 <3.0.0-z"]
+
+
+def latest_rule_history(rng, alias=0):
+    """npm's rule for the version tagged latest looks at the WHOLE package (a tagged prerelease goes last only when the
+    package has no release): packages mixing releases and prereleases with the tag on either kind, matched with
+    requirements that select prereleases only, releases only, or both"""
+    name = NAMES[NPM][0]
+    vs = rng.sample(LATEST_PRE, rng.randrange(2, 5)) + rng.sample(LATEST_REL, rng.choice([0, 1, 1, 2]))
+    rng.shuffle(vs)
+    tagged = rng.choice([v for v in vs if b"-" in v]) if rng.random() < 0.75 else rng.choice(vs)
+    ops = []
+    for v in vs:
+        attrs = [[cc.V_TAGS, rng.choice([b"latest", b"next,latest", b"latest"])]] if v == tagged else \
+            ([[cc.V_TAGS, b"next"]] if rng.random() < 0.15 else [])
+        ops.append([0, NPM, name, CONCRETE, v, attrs, gen_deps(rng, NPM, 2)])
+        if rng.random() < 0.3:
+            ops.append([4, NPM, name, REQUIREMENT, rng.choice(LATEST_REQS)])
+    if rng.random() < 0.3:
+        # the tag moves: the same version again without it, another one with it
+        v2 = rng.choice(vs)
+        ops.append([0, NPM, name, CONCRETE, tagged, [], []])
+        ops.append([0, NPM, name, CONCRETE, v2, [[cc.V_TAGS, b"latest"]], []])
+    ops.append([2, NPM, name])
+    for rq in LATEST_REQS:
+        ops.append([4, NPM, name, REQUIREMENT, rq])
+    ops.append([2, NPM, name])
+    return ops
+
+
 def adds_of(o):
     """the AddVersion calls an op makes, as (sys, name, vtype, version, attrs, requirements given);
     for the buffer-reusing op the second call is given what the buffer holds after the first"""
@@ -472,6 +505,8 @@ def run(ctx):
             # a package beyond Go's insertion-sort cut-off of 12, requirement lists of 13-16
             nops = rng.randrange(60, 401) if ctx.thorough() else rng.randrange(30, 70)
             hists.append(gen_history(rng, nops, rng.randrange(14, 41), alias, long=True))
+        elif i % 10 == 1:
+            hists.append(latest_rule_history(rng, alias))
         else:
             hists.append(gen_history(rng, rng.randrange(1, 61), rng.choice([4, 6, 8, 10]), alias))
     # the recorded witnesses first
